@@ -175,7 +175,7 @@ Example C16_nonvacuous :
   /\ run_cli_help_gen (perm_of [["--bb"; "--cc"]]) default_cfg_parser CRAuto [] [("a.bb", mkdv "0" true)] demo_forest
      = mkrun (Exit 0) (Some (SOut, [mkgroup "K1 ['a']" "Doc of K1." [mkentry "a.bb" ["--bb"; "--cc"] (Some "0") "the value";
                                                         mkentry "a.x" ["-x"; "--x"] None ""]]))
-  /\ forest_tie_free default_cfg_parser [mkhw "K1" ["a"] "Doc." [mkhf (mkfw ["a"] "x" "" [] false) true None "" None false]] = true
+  /\ forest_tie_free default_cfg_parser [mkhw "K1" ["a"] [] "Doc." [mkhf (mkfw ["a"] "x" "" [] false) true None "" None false]] = true
   /\ NoDup (map hdest (flat_map hw_fields demo_forest)).
 Proof.
   split; [apply perm_of_valid|]. split; [vm_compute; reflexivity|]. split; [vm_compute; reflexivity|].
